@@ -393,6 +393,10 @@ theorem mem_sat_lo {A : IR} {z lo : Int} (hm : A.mem z) :
       simp only [Option.map_some, leHi, imax]
       split <;> split <;> omega
 
+theorem two_pow_mono {a b : Nat} (h : a ≤ b) : (2 : Int) ^ a ≤ 2 ^ b := by
+  have := Nat.pow_le_pow_right (n := 2) (by decide) h
+  exact_mod_cast this
+
 /-- what the shift rules know once `shiftBounds` exists and contains the amount's bounds -/
 theorem shift_amount_ok {b : Base} {slo shi y : Int} {rb : IR}
     (hs : b.shiftBounds = some (slo, shi)) (hc : (!containsIR (mkIR slo shi) rb) = false)
@@ -407,7 +411,8 @@ values, the operator's monitor holds and the result bounds contain the result. -
 theorem binBounds_sound {env : Env} {fs : List Expr} {op : BOp} {l r : Expr} {lb rb nb : IR}
     (hf : FactsHold env fs)
     (hl : lb.mem (evalI env l)) (hr : rb.mem (evalI env r))
-    (hlt : op = .modshl → (typeOf l).base ≠ .ideal → inNatural (typeOf l).base (evalI env l))
+    (hlt : op = .modshl ∨ op = .highbits → (typeOf l).base ≠ .ideal →
+      inNatural (typeOf l).base (evalI env l))
     (h : binBounds fs op l lb r rb = some nb) :
     opMonitor op (opBase op l r) (evalI env l) (evalI env r) ∧
       nb.mem (binSem op (opBase op l r) (evalI env l) (evalI env r)) := by
@@ -498,7 +503,7 @@ theorem binBounds_sound {env : Env} {fs : List Expr} {op : BOp} {l r : Expr} {lb
               have hne : (typeOf l).base ≠ .ideal := by
                 intro hc'; rw [hc'] at hs; simp [Base.shiftBounds] at hs
               have hx0 : 0 ≤ evalI env l := by
-                have := hlt rfl hne
+                have := hlt (Or.inl rfl) hne
                 simp only [inNatural, range_of_numBounds hnb] at this
                 exact this.1
               have hle2 := mem_hi hs0 hhi
@@ -576,6 +581,102 @@ theorem binBounds_sound {env : Env} {fs : List Expr} {op : BOp} {l r : Expr} {lb
         simp only [binSem, hn]
         exact mem_sat_lo (minusBounds_sound hf hl hr)
       · cases h
+    · cases h
+  case bmin =>
+    simp only [binBounds] at h
+    split at h
+    · rename_i sb tlo thi hs hn
+      split at h
+      · cases h
+      · rename_i hc
+        simp only [Bool.not_eq_true, Bool.not_eq_false'] at hc
+        have hy := containsIR_mem hc hr
+        split at h
+        · rename_i a b c d ha hb hc' hd
+          simp only [beq_self_eq_true, if_true, Option.some.injEq] at h
+          subst h
+          have := mem_lo hl ha; have := mem_hi hl hb
+          have := mem_lo hr hc'; have := mem_hi hr hd
+          refine ⟨by simpa [opMonitor, opBase, inNatural, range_of_numBounds hn] using hy, ?_⟩
+          simp only [binSem, mem_mkIR, imin]
+          split <;> split <;> split <;> omega
+        · cases h
+    · cases h
+  case bmax =>
+    simp only [binBounds] at h
+    split at h
+    · rename_i sb tlo thi hs hn
+      split at h
+      · cases h
+      · rename_i hc
+        simp only [Bool.not_eq_true, Bool.not_eq_false'] at hc
+        have hy := containsIR_mem hc hr
+        split at h
+        · rename_i a b c d ha hb hc' hd
+          have hne : (BOp.bmax == BOp.bmin) = false := by decide
+          simp only [hne, Bool.false_eq_true, if_false, Option.some.injEq] at h
+          subst h
+          have := mem_lo hl ha; have := mem_hi hl hb
+          have := mem_lo hr hc'; have := mem_hi hr hd
+          refine ⟨by simpa [opMonitor, opBase, inNatural, range_of_numBounds hn] using hy, ?_⟩
+          simp only [binSem, mem_mkIR, imax]
+          split <;> split <;> split <;> omega
+        · cases h
+    · cases h
+  case lowbits =>
+    simp only [binBounds] at h
+    split at h
+    · rename_i slo shi hs
+      split at h
+      · cases h
+      · rename_i hc
+        have hamt := shift_amount_ok hs (by simpa using hc) hr
+        split at h
+        · rename_i hh hhi
+          cases h
+          refine ⟨by simpa [opMonitor, opBase] using hamt, ?_⟩
+          simp only [binSem, mem_mkIR, bitMaskN]
+          have hyh := mem_hi hr hhi
+          have hp : (0 : Int) < 2 ^ (evalI env r).toNat := Int.pow_pos (by decide)
+          have h1 := Int.emod_nonneg (evalI env l) (Int.ne_of_gt hp)
+          have h2 := Int.emod_lt_of_pos (evalI env l) hp
+          have hmono : (2 : Int) ^ (evalI env r).toNat ≤ 2 ^ hh.toNat :=
+            two_pow_mono (by omega)
+          omega
+        · cases h
+    · cases h
+  case highbits =>
+    simp only [binBounds] at h
+    split at h
+    · rename_i slo shi hs
+      split at h
+      · cases h
+      · rename_i hc
+        have hamt := shift_amount_ok hs (by simpa using hc) hr
+        obtain ⟨_, _, hnb, _⟩ := shiftBounds_spec hs
+        have hne : (typeOf l).base ≠ .ideal := by
+          intro hc'; rw [hc'] at hs; simp [Base.shiftBounds] at hs
+        have hx := hlt (Or.inr rfl) hne
+        simp only [inNatural, range_of_numBounds hnb] at hx
+        split at h
+        · rename_i hh hhi
+          cases h
+          refine ⟨by simpa [opMonitor, opBase] using hamt, ?_⟩
+          simp only [binSem, opBase, mem_mkIR, bitMaskN]
+          have hyh := mem_hi hr hhi
+          generalize (typeOf l).base.bits = bits at *
+          generalize evalI env l = x at *
+          generalize evalI env r = y at *
+          have hp : (0 : Int) < 2 ^ (bits - y.toNat) := Int.pow_pos (by decide)
+          have h1 : 0 ≤ x / 2 ^ (bits - y.toNat) := Int.ediv_nonneg hx.1 (Int.le_of_lt hp)
+          have hsplit : (2 : Int) ^ bits = 2 ^ y.toNat * 2 ^ (bits - y.toNat) := by
+            rw [← Int.pow_add]; congr 1; omega
+          have h2 : x / 2 ^ (bits - y.toNat) < 2 ^ y.toNat :=
+            Int.ediv_lt_of_lt_mul hp (by rw [← hsplit]; omega)
+          have hmono : (2 : Int) ^ y.toNat ≤ 2 ^ hh.toNat :=
+            two_pow_mono (by omega)
+          omega
+        · cases h
     · cases h
   all_goals
     simp only [binBounds] at h; cases h
@@ -824,8 +925,8 @@ theorem bounds_contain_aux {env : Env} {fs : List Expr} (hf : FactsHold env fs) 
           split at h
           · cases h
           · rename_i nb hnb
-            have hnm : op ≠ .modshl := by
-              intro hc; subst hc; simp [BOp.isAssoc] at hassoc
+            have hnm : ¬ (op = .modshl ∨ op = .highbits) := by
+              rintro (hc | hc) <;> subst hc <;> simp [BOp.isAssoc] at hassoc
             obtain ⟨hmon, hmn⟩ := binBounds_sound hf hml hmr
               (fun hc => absurd hc hnm) hnb
             have hmn' : nb.mem (evalI env (.assoc op pre l r)) := by simpa [evalI] using hmn
